@@ -501,18 +501,73 @@ func ruleTK(parts ...string) Rule {
 					}
 					key := g.Name + "|emit(NAME)"
 					one, lit, name := false, false, false
-					for _, gd := range guardsOf(c.P, call, nil) {
-						if !gd.pos {
+					judge := func(h *core.Func, gds []guard) (one, lit, name bool) {
+						for _, gd := range gds {
+							if !gd.pos {
+								continue
+							}
+							if isLenFieldEq(h.Info(), gd.cond, "parser", "lexer", "word", 1) {
+								one = true
+							}
+							if okVarOfAssert(c.P, h, gd.cond, "*ast.Lit") {
+								lit = true
+							}
+							if c.callsFunc(h.Info(), gd.cond, c.fn("parser.(*lexer).isName")) {
+								name = true
+							}
+						}
+						return
+					}
+					gds := guardsOf(c.P, call, nil)
+					one, lit, name = judge(g, gds)
+					// the test may live in a predicate of the lexer (`if !l.isForName() { … return }`):
+					// what holds wherever it answers true holds here
+					for _, gd := range gds {
+						pc, isCall := ast.Unparen(gd.cond).(*ast.CallExpr)
+						if !gd.pos || !isCall || len(pc.Args) != 0 {
 							continue
 						}
-						if isLenFieldEq(g.Info(), gd.cond, "parser", "lexer", "word", 1) {
-							one = true
+						se, isSel := ast.Unparen(pc.Fun).(*ast.SelectorExpr)
+						if !isSel {
+							continue
 						}
-						if okVarOfAssert(c.P, g, gd.cond, "*ast.Lit") {
-							lit = true
+						if id, isID := ast.Unparen(se.X).(*ast.Ident); !isID || !isRecv(g.Root(), g.Info().Uses[id]) {
+							continue
 						}
-						if c.callsFunc(g.Info(), gd.cond, c.fn("parser.(*lexer).isName")) {
-							name = true
+						fo := core.StaticCallee(g.Info(), pc)
+						if fo == nil {
+							continue
+						}
+						h := c.P.FuncOf(fo)
+						if h == nil || h.Body == nil {
+							continue
+						}
+						all := true
+						nTrue := 0
+						o2, l2, n2 := true, true, true
+						h.OwnNodes(func(y ast.Node) bool {
+							ret, isRet := y.(*ast.ReturnStmt)
+							if !isRet {
+								return true
+							}
+							if len(ret.Results) != 1 {
+								all = false
+								return true
+							}
+							tv, has := h.Info().Types[ret.Results[0]]
+							if !has || tv.Value == nil {
+								all = false
+								return true
+							}
+							if tv.Value.String() == "true" {
+								nTrue++
+								a, b, d := judge(h, guardsOf(c.P, ret, nil))
+								o2, l2, n2 = o2 && a, l2 && b, n2 && d
+							}
+							return true
+						})
+						if all && nTrue > 0 {
+							one, lit, name = one || o2, lit || l2, name || n2
 						}
 					}
 					if one && lit && name {
